@@ -68,7 +68,7 @@ for mode in MODES:
             regs(b, m, mode, kind)
             return {'self': m}
         c = handler('_color_default', mode, kind, setup, serves=('C07', 'C15'))
-        c.ensures('no-request', "ghost('Dev') is None")
+        c.ensures('no-request', "len(ghost('Dev')) == 0")
         c.define('R', 'self._reg.default')
         # the default register holds the (unrounded) raw colour; what is transmitted later is param_16 of it
         if mode == 'LOGICAL':
